@@ -180,6 +180,24 @@ CLAIMS = {
              "where the alias rule says so (element pointers/references).",
         technique="static analysis: ownership typestate dataflow with callee summaries, borrow/alias dataflow, who-may-call and exhaustiveness checks",
         ref="DESIGN.md section 4 C16"),
+    "C17": dict(
+        text="Static analysis, partial: effect analysis (E-FX) over the functions clang instantiates for Template::Render: "
+             "memory regions are tracked as symbols through pointer/reference flow (owning storage pointers stay with "
+             "their holder, non-owning ones may refer to the input), the roots input / stream / per-call context are "
+             "pushed from TemplateCore::Render(tags, value, stream) down every call edge (the function-pointer call "
+             "resolved from its actual targets), and every store, destructor, operator delete and write through a pointer "
+             "argument of a body-less function in the ~360 reachable functions is classified: none lands in the value, "
+             "the tag cache, the template text, a literal, static storage or an unknown region; statics read by the "
+             "renderer have no writer in the unit; the stream is changed from outside StringStream only through its "
+             "appenders (plus the number formatter's edits of its own digits); the renderer object and loop-item stack "
+             "are automatic objects bound to the call's arguments; Template::Render parses only on the empty-cache "
+             "branch and passes the cache by const reference. This decides the 'never modifies value/template/cache, "
+             "no hidden state' clauses and, from them, the absence of conflicting writes between renders that use "
+             "different streams. Not decided: byte identity (determinism of reads); no schedule is explored.",
+        note=TRUST + "drivers/inst.cpp is assumed to instantiate the documented entry points; destructors of local "
+             "containers release only memory of the call (C16).",
+        technique="static analysis: interprocedural region/effect analysis with root propagation over the instantiated call graph, who-may-call and dominance checks",
+        ref="DESIGN.md section 4 C17, section 3.1 E-FX"),
     "C18": dict(
         text="Static analysis, partial: in Value::GroupBy the grouping key is consulted for every member of every "
              "element (use of the key parameters inside the element/member loops); on a removed member the walk "
